@@ -316,3 +316,10 @@ Proof.
         by (apply existsb_exists; exists c; split; auto; apply M; auto).
       congruence.
 Qed.
+
+(* with the model's own order the parametrised table order is [expected_names] *)
+Lemma expected_names_ord_canonical : forall cs, expected_names_ord canonical_order cs = expected_names cs.
+Proof.
+  intros. unfold expected_names_ord, expected_names, present. cbn [canonical_order all_keys filter].
+  destruct (has_det cs), (last_dnd cs), (last_inst cs), (last_samp cs), (last_pix cs) as [[[p xs] nd]|]; reflexivity.
+Qed.
